@@ -47,6 +47,14 @@ func (k Keeper) ApplyAndReturnValidatorSetUpdates(ctx context.Context) ([]abci.V
 
 		// zero power validator removed from validator set
 		if newPower <= 0 {
+			// a validator that was added and removed again before it was ever
+			// bonded has no last-power record, so the no-longer-bonded pass below
+			// never sees it: purge its record and consensus-key index here.
+			if !found {
+				if err := k.RemoveValidator(ctx, valAddr); err != nil {
+					return nil, err
+				}
+			}
 			continue
 		}
 
